@@ -199,6 +199,23 @@ class World:
             if k == "search":
                 seen, best = self.search(op[1], op[2], op[3])
                 return Event(k, op, [], [], extra={"evaluated": seen, "best": best})
+            if k == "warmstart":
+                # a GP search seeded with programs of the pool through InjectInitialPopulationWrapper:
+                # as raw programs, or as Individual objects - bound to this representation object or to
+                # an equivalent one of an earlier search (tree representation only, as documented)
+                if self.rep_kind != "tree":
+                    self.skipped += 1
+                    return None
+                from geneticengine.representations.tree.operators import InjectInitialPopulationWrapper
+                from geneticengine.solutions.individual import Individual
+
+                items = [self.pool[self._idx(op[1] + j)] for j in range(op[2])]
+                if op[3] != "programs":
+                    r = self.rep if op[3] == "individuals-same-representation" else self.make_rep(self.make_decider(self.random))
+                    items = [Individual(g, r) for g in items]
+                init = InjectInitialPopulationWrapper(items, self.initializer("standard"))
+                seen, best = self.search("gp", op[4], op[5], initializer=init)
+                return Event("search", op, [], [], extra={"evaluated": seen, "best": best})
         except BaseException as e:  # noqa: BLE001
             if isinstance(e, (KeyboardInterrupt, SystemExit, MemoryError)):
                 raise
@@ -304,6 +321,16 @@ def ops_strategy(max_ops=10, with_search=False, with_burn=False, with_map=True, 
                 lambda a, b, p: ["search", a, b, p],
                 st.sampled_from(["rs", "1p1", "hc", "gp"]),
                 st.integers(1, 12),
+                st.integers(2, 5),
+            ),
+        )
+        alts.append(
+            st.builds(
+                lambda i, n, form, b, p: ["warmstart", i, n, form, b, p],
+                idx,
+                st.integers(1, 4),
+                st.sampled_from(["programs", "individuals-same-representation", "individuals-of-an-equivalent-representation"]),
+                st.integers(2, 12),
                 st.integers(2, 5),
             ),
         )
